@@ -377,6 +377,37 @@ fn run_misc(rep: &mut Rep, seed: u64, len: usize) {
         let data: Vec<u64> = (0..l).map(|_| rng.u64()).collect();
         popcnt_n!(rep, data; 1, 2, 3, 4, 5, 6, 7, 8);
     }
+    // wide N: any accumulation in narrow lanes (bytes: 8 bits per word, 16-bit lanes: 16 bits per word) would wrap after
+    // 32 / 4096 / 8192 words; patterns fill one lane of every word, all lanes, or random bits
+    if !crate::tiny() || seed % 4 == 0 {
+        let big = if crate::tiny() { 300usize } else { 140_000 };
+        let mut pats: Vec<(String, Vec<u64>)> = Vec::new();
+        pats.push(("random".into(), (0..big).map(|_| rng.u64()).collect()));
+        pats.push(("all ones".into(), vec![u64::MAX; big]));
+        pats.push(("alternating".into(), (0..big).map(|i| if i % 2 == 0 { 0xAAAA_AAAA_AAAA_AAAA } else { u64::MAX }).collect()));
+        for lane in 0..4 {
+            pats.push((format!("16-bit lane {} of every word set", lane), vec![0xFFFFu64 << (16 * lane); big]));
+        }
+        for lane in [0usize, 3, 7] {
+            pats.push((format!("byte lane {} of every word set", lane), vec![0xFFu64 << (8 * lane); big]));
+        }
+        pats.push(("32-bit lane 1 of every word set".into(), vec![0xFFFF_FFFFu64 << 32; big]));
+        pats.push(("ones only after the first 4096 words".into(), (0..big).map(|i| if i >= 4096 { u64::MAX } else { 0 }).collect()));
+        for (what, data) in pats.iter() {
+            macro_rules! wide {
+                ($($n:literal),*) => { $(
+                    if !crate::tiny() || $n <= 300 {
+                        for l in [$n - 1, $n, $n + 1, 2 * $n + 3usize] {
+                            let d = &data[..l.min(data.len())];
+                            let e: usize = d.iter().take($n).map(|w| w.count_ones() as usize).sum();
+                            chk!(rep, "popcnt_wide", ($n, d.len(), what), Exp::Is(e), popcnt_wide::<$n>(d));
+                        }
+                    }
+                )* }
+            }
+            wide!(9, 15, 16, 17, 31, 32, 33, 63, 64, 65, 127, 128, 255, 256, 257, 1023, 1024, 2048, 4095, 4096, 4097, 8191, 8192, 8193, 12288, 65535, 65536, 65537);
+        }
+    }
     msb_type!(rep, rng; u8, u16, u32, u64, usize, u128, i8, i16, i32, i64, i128);
     partition_type!(rep, rng, len; u8, u16, u32, u64, usize, u128);
     // text_remap
